@@ -165,6 +165,7 @@ class Interp:
         self.keep = keep          # record the state at every normal return, never drop dead variables
         self._dead = False
         self._tables = {}
+        self._param_ds = {p['d'] for p in fn.params}
         self.kr = {}          # key -> type range
         self.edeps = {}       # e-key text -> (deps frozenset, pointer_based)
         self._lv_cache = {}
@@ -1083,9 +1084,10 @@ class Interp:
                 heapq.heappush(heap, (-b, seq[0], sg))
 
         def arrive(b, st):
-            if not self.keep:
-                lv = self.live.get(b, ())
-                st = {k: v for k, v in st.items() if k[0] != 'v' or k[1] in lv}
+            lv = self.live.get(b, ())
+            if self.keep:
+                lv = set(lv) | self._param_ds      # what holds for the parameters at the returns is the point of keep mode
+            st = {k: v for k, v in st.items() if k[0] != 'v' or k[1] in lv}
             for k, v in st.items():
                 if k[0] == 'v' and k[1] in self.counters and 0 < v[1] - v[0] <= SPLIT_MAX:
                     for c in range(v[0], v[1] + 1):
